@@ -57,8 +57,9 @@ PROPS = {
         "explanation": "integer/float/char/bool/unit/option conversions at the host boundary, full input domain",
     },
     "C06": {
-        "units": ["glob"],
+        "units": ["glob", "env"],
         "trusted_base": COMMON_TB + [
+            "units/env/prelude.rs: shared_vector::AtomicSharedVector as a Vec with the same API (assumed contract; copy-on-write between threads not modelled), reduced SteelVal",
             "units/glob/prelude.rs: InternedString as a u32 newtype, FxHashMap/HashSet as exact finite map/set models (assumed contract of hashbrown), reduced SteelVal/ByteCodeLambda, Heap no-ops, visitor loop reduced to the Closure arm",
             "the real steel-gen crate (OpCode) is compiled as is; the list of global-index opcodes is cross-checked textually against VmCore::vm every run",
         ],
